@@ -72,9 +72,24 @@ func staticClass(text string) map[string]bool {
 			if n == nil {
 				return
 			}
+			// text nodes separated only by a template comment are adjacent bytes of the output:
+			// they are classified as one text
+			run := ""
+			flush := func() {
+				for _, c := range textClasses(run) {
+					class[c] = true
+				}
+				run = ""
+			}
 			for _, m := range n.Nodes {
+				if t, ok := m.(*parse.TextNode); ok {
+					run += string(t.Text)
+					continue
+				}
+				flush()
 				walk(m)
 			}
+			flush()
 		case *parse.TextNode:
 			for _, c := range textClasses(string(n.Text)) {
 				class[c] = true
@@ -370,6 +385,30 @@ func run(c *core.Ctx) {
 		c.Journal(util.JSON(map[string]string{"template": text}))
 		for a := 0; a < 3; a++ {
 			hs, is := gen.GenData(rs, hostileLeaf(rs))
+			checkOne(c, text, hs, is, false)
+		}
+	}
+	// torn text: the static text of generated and battery templates is split by template
+	// comments ({{/**/}}), so that tag names, delimiters, end tags and character references
+	// arrive in two text nodes (own stream: the cases above are the same with and without it)
+	rt := c.Rng("torn-text")
+	nP := c.N(12000, 150000) / c.NShards
+	for i := 0; i < nP; i++ {
+		var text string
+		if i%3 == 0 {
+			text = battery[rt.Intn(len(battery))]
+		} else {
+			o := gen.TmplOpts{Lexical: 40, Control: 30, Helpers: 20, Tear: 10, Odd: 25, BadPos: 5, MaxDepth: 2, HelperInAttrOnce: false}
+			if i%3 == 1 {
+				o.URLHeavy = true
+			}
+			text = gen.GenTemplate(rt, o).Text
+		}
+		text = gen.SplitText(rt, text, 1+rt.Intn(3))
+		c.Journal(util.JSON(map[string]string{"template": text}))
+		c.Count("templates_with_torn_text", 1)
+		for a := 0; a < 3; a++ {
+			hs, is := gen.GenData(rt, hostileLeaf(rt))
 			checkOne(c, text, hs, is, false)
 		}
 	}
